@@ -144,8 +144,11 @@ static void build_api(typename Doc::NodeType& n, const ref::Value& v, typename D
       if (owned_strings)
         n.SetString(v.s.data(), v.s.size(), al);
       else {
-        // constant strings must outlive the document: use literals
-        const char* p = v.s == "a" ? "a" : v.s == "b" ? "b" : lit_empty;
+        // constant strings are views into ONE shared buffer "ab": "" and "a" start at the same address
+        // with different lengths, "b" is a suffix (string equality must compare bytes and lengths)
+        static const char kShared[] = "ab";
+        (void)lit_empty;
+        const char* p = v.s == "b" ? kShared + 1 : kShared;
         n.SetString(p, v.s.size());
       }
       break;
